@@ -316,6 +316,9 @@ func randVC(r *hx.Rng) (*J, feat) {
 		case "Proof":
 			v = obj(kv("type", str("Shadow")))
 		case "credentialstatus":
+			// decoded into the *TypedID the exact-named member already filled (the two objects would be merged field
+			// by field): the variant stands alone
+			d.del("credentialStatus")
 			v = obj(kv("id", str("urn:shadow")))
 		case "@Context":
 			v = arr(str("urn:shadow"))
